@@ -1,4 +1,145 @@
+use encoding::Encoding;
 //@ item src:zvt_builder/src/lib.rs | enum ZVTError
 //@ item src:zvt_builder/src/lib.rs | type ZVTResult
-//@ item src:zvt_builder/src/lib.rs | struct Tag | derive=PartialEq,Eq,Clone,Structural
+//@ item src:zvt_builder/src/lib.rs | struct Tag | derive=PartialEq,Eq,Structural
+// `#[derive(Clone)]` written out (field-wise clone), so that `tag.clone()` has a specification
+impl Clone for Tag {
+    fn clone(&self) -> (r: Self)
+        ensures r == *self
+    { Tag(self.0) }
+}
 //@ item src:zvt_builder/src/lib.rs | trait ZvtCommand
+
+/// `rest` is the input with its first k bytes removed
+pub open spec fn is_rest_after(rest: Seq<u8>, b: Seq<u8>, k: int) -> bool {
+    0 <= k <= b.len() && rest =~= b.skip(k)
+}
+
+// ---- reference semantics of `<TAG> <LENGTH> <DATA>` (C01/C03/C14), generic in the three styles ----
+pub open spec fn tag_bytes<TE: encoding::Encoding<Tag>>(tag: Option<Tag>) -> Seq<u8> {
+    match tag { Some(t) => TE::spec_enc(&t), None => Seq::<u8>::empty() }
+}
+pub open spec fn default_ser_pre<T, L: length::Length, E: encoding::Encoding<T>, TE: encoding::Encoding<Tag>>(v: &T, tag: Option<Tag>) -> bool {
+    L::wf() && E::enc_ok(v) && E::spec_enc(v).len() <= usize::MAX && L::ser_ok(E::spec_enc(v).len() as usize)
+        && (tag matches Some(t) ==> TE::enc_ok(&t))
+}
+pub open spec fn default_spec_ser<T, L: length::Length, E: encoding::Encoding<T>, TE: encoding::Encoding<Tag>>(v: &T, tag: Option<Tag>) -> Seq<u8> {
+    tag_bytes::<TE>(tag) + L::spec_ser(E::spec_enc(v).len() as usize) + E::spec_enc(v)
+}
+/// after the tag: length prefix, then exactly `n` payload bytes handed to the value decoder
+pub open spec fn default_spec_deser_body<T, L: length::Length, E: encoding::Encoding<T>>(b1: Seq<u8>, k0: int) -> Option<(T, int)> {
+    match L::spec_deser(b1) {
+        None => None,
+        Some((n, k)) => if n > b1.len() - k { None } else {
+            match E::spec_dec(b1.skip(k).subrange(0, n as int)) {
+                None => None,
+                Some((v, c)) => Some((v, k0 + k + c)),
+            }
+        },
+    }
+}
+pub open spec fn default_spec_deser<T, L: length::Length, E: encoding::Encoding<T>, TE: encoding::Encoding<Tag>>(b: Seq<u8>, tag: Option<Tag>) -> Option<(T, int)> {
+    match tag {
+        Some(t) => match TE::spec_dec(b) {
+            None => None,
+            Some((t2, k0)) => if t2 != t { None } else { default_spec_deser_body::<T, L, E>(b.skip(k0), k0) },
+        },
+        None => default_spec_deser_body::<T, L, E>(b, 0),
+    }
+}
+
+pub trait ZvtSerializerImpl<
+    L: length::Length = length::Empty,
+    E: encoding::Encoding<Self> = encoding::Default,
+    TE: encoding::Encoding<Tag> = encoding::Default,
+> where
+    Self: Sized,
+{
+    spec fn ser_pre(&self, tag: Option<Tag>) -> bool;
+    spec fn spec_ser_tagged(&self, tag: Option<Tag>) -> Seq<u8>;
+    spec fn deser_pre(tag: Option<Tag>) -> bool;
+    /// every successful decode consumes at least one byte
+    spec fn deser_progresses(tag: Option<Tag>) -> bool;
+    /// the decoder succeeds exactly on these inputs
+    spec fn deser_defined(b: Seq<u8>, tag: Option<Tag>) -> bool;
+    /// what a successful result (value, bytes consumed) must satisfy
+    spec fn deser_ok(b: Seq<u8>, tag: Option<Tag>, v: Self, k: int) -> bool;
+
+    // N15: the default bodies of the two methods are verified where they are inherited
+    // (materialised into every impl that does not override them); the trait only declares them.
+    //@ fn src:zvt_builder/src/lib.rs | trait ZvtSerializerImpl | serialize_tagged | sig dropbody
+    //@ tag st.ser.exact C03 C01
+        requires self.ser_pre(tag),
+        ensures r@ =~= self.spec_ser_tagged(tag),
+    //@ end
+    //@ fn src:zvt_builder/src/lib.rs | trait ZvtSerializerImpl | deserialize_tagged | sig dropbody props=C02
+        requires Self::deser_pre(tag),
+        ensures
+    //@ tag st.deser.defined C01 C02
+            r is Ok <==> Self::deser_defined(bytes@, tag),
+    //@ tag st.deser.frame C14
+            r matches Ok((v, rest)) ==> is_rest_after(rest@, bytes@, bytes@.len() - rest@.len()),
+    //@ tag st.deser.ok C01 C14
+            r matches Ok((v, rest)) ==> Self::deser_ok(bytes@, tag, v, bytes@.len() - rest@.len()),
+    //@ tag st.deser.progress C02
+            Self::deser_progresses(tag) ==> (r matches Ok((v, rest)) ==> rest@.len() < bytes@.len()),
+    //@ end
+}
+
+// ------------------------------------------------------------------ Option<T>: absent value, absent bytes
+impl<T, L: length::Length, E: encoding::Encoding<T>, TE: encoding::Encoding<Tag>>
+    ZvtSerializerImpl<L, E, TE> for Option<T>
+where
+    T: ZvtSerializerImpl<L, E, TE>,
+{
+    open spec fn ser_pre(&self, tag: Option<Tag>) -> bool { match self { None => true, Some(d) => d.ser_pre(tag) } }
+    /// nothing at all (no tag either) when absent; exactly the inner form when present
+    open spec fn spec_ser_tagged(&self, tag: Option<Tag>) -> Seq<u8> { match self { None => Seq::<u8>::empty(), Some(d) => d.spec_ser_tagged(tag) } }
+    open spec fn deser_pre(tag: Option<Tag>) -> bool { T::deser_pre(tag) }
+    open spec fn deser_progresses(tag: Option<Tag>) -> bool { tag is Some && T::deser_progresses(tag) }
+    /// tagged: fails exactly when the inner type fails; positional: never fails
+    open spec fn deser_defined(b: Seq<u8>, tag: Option<Tag>) -> bool { match tag { Some(_) => T::deser_defined(b, tag), None => true } }
+    open spec fn deser_ok(b: Seq<u8>, tag: Option<Tag>, v: Self, k: int) -> bool {
+        match tag {
+            Some(_) => v matches Some(i) && T::deser_ok(b, tag, i, k),
+            None => if T::deser_defined(b, None) { v matches Some(i) && T::deser_ok(b, None, i, k) } else { v is None && k == 0 },
+        }
+    }
+    //@ fn src:zvt_builder/src/lib.rs | impl ZvtSerializerImpl<L,E,TE> for Option<T> | serialize_tagged
+    //@ end
+    //@ fn src:zvt_builder/src/lib.rs | impl ZvtSerializerImpl<L,E,TE> for Option<T> | deserialize_tagged | props=C02
+    //@ end
+}
+
+// ------------------------------------------------------------------ Vec<T>: every element tagged on its own
+pub open spec fn vec_ser<T: ZvtSerializerImpl<L, E, TE>, L: length::Length, E: encoding::Encoding<T>, TE: encoding::Encoding<Tag>>(s: Seq<T>, tag: Option<Tag>) -> Seq<u8>
+    decreases s.len()
+{
+    if s.len() == 0 { Seq::<u8>::empty() } else { vec_ser::<T, L, E, TE>(s.drop_last(), tag) + s.last().spec_ser_tagged(tag) }
+}
+impl<T, L: length::Length, E: encoding::Encoding<T>, TE: encoding::Encoding<Tag>>
+    ZvtSerializerImpl<L, E, TE> for Vec<T>
+where
+    T: ZvtSerializerImpl<L, E, TE>,
+{
+    open spec fn ser_pre(&self, tag: Option<Tag>) -> bool { forall|i: int| 0 <= i < self@.len() ==> (#[trigger] self@[i]).ser_pre(tag) }
+    open spec fn spec_ser_tagged(&self, tag: Option<Tag>) -> Seq<u8> { vec_ser::<T, L, E, TE>(self@, tag) }
+    /// termination needs every round to consume a tag: elements must be tagged
+    open spec fn deser_pre(tag: Option<Tag>) -> bool { T::deser_pre(tag) && T::deser_progresses(tag) }
+    open spec fn deser_progresses(tag: Option<Tag>) -> bool { false }
+    open spec fn deser_defined(b: Seq<u8>, tag: Option<Tag>) -> bool { true }
+    /// element content is not specified at this level (see DESIGN.md: Vec combinator, partial)
+    open spec fn deser_ok(b: Seq<u8>, tag: Option<Tag>, v: Self, k: int) -> bool { true }
+    // iterator adapters (flat_map/collect): trusted shell
+    //@ fn src:zvt_builder/src/lib.rs | impl ZvtSerializerImpl<L,E,TE> for Vec<T> | serialize_tagged | ext
+    //@ end
+    //@ fn src:zvt_builder/src/lib.rs | impl ZvtSerializerImpl<L,E,TE> for Vec<T> | deserialize_tagged | all-loops props=C02
+    //@ loop 0
+            invariant
+                T::deser_pre(tag), T::deser_progresses(tag),
+                is_rest_after(bytes@, bytes0, bytes0.len() - bytes@.len()),
+            decreases bytes@.len(),
+    //@ entry
+        let ghost bytes0 = bytes@;
+    //@ end
+}
